@@ -270,6 +270,21 @@ def slice_bounds(s: SliceV, dimlen):
 
 def index_num(ex, base: Num, idx, node):
     shape = base.shape
+    # x[..., k]: the Ellipsis stands for as many full slices as are needed to address every axis
+    if any(isinstance(c, OpaqueV) and c.key == "..." for c in idx):
+        if shape is None or sum(1 for c in idx if isinstance(c, OpaqueV) and c.key == "...") != 1:
+            raise Undecided("Ellipsis in the subscript of an array of unknown rank", node)
+        n_fill = len(shape) - (len(idx) - 1)
+        if n_fill < 0:
+            raise Undecided("too many indices", node)
+        full = SliceV(NONE, NONE, NONE)
+        new_idx = []
+        for c in idx:
+            if isinstance(c, OpaqueV) and c.key == "...":
+                new_idx.extend([full] * n_fill)
+            else:
+                new_idx.append(c)
+        idx = new_idx
     # a COLSTACK projected on columns
     a = single_atom(base.nf) if base.nf is not None else None
     if base.cond is not None and base.nf is None:
@@ -919,6 +934,15 @@ def _operator_models():
 
 
 _operator_models()
+
+
+@model("builtins.slice")
+def _slice_obj(ex, args, kwargs, node):
+    # slice(stop) / slice(start, stop[, step]): the object a[start:stop:step] builds
+    a = list(args) + [NONE] * (3 - len(args))
+    if len(args) == 1:
+        return SliceV(NONE, a[0], NONE)
+    return SliceV(a[0], a[1], a[2])
 
 
 @model("collections.deque")
